@@ -200,8 +200,11 @@ def run(ctx: Context) -> None:
                 and isinstance(v.operand, ast.Call) and callee(ctx, ac, v.operand) == 'numpy.ma.getmask'
             ctx.check('R08.4', ok, f"rows along the {kind} dimension are kept where the {kind} old-to-new table is not masked", ac, v if v is not None else dm[0],
                       construct=f"{key}: {norm_text(v) if v is not None else 'absent'} (table of {table_kind(v) if v is not None else '?'})")
-        eg = [(norm_text(st.test), inb) for n in extra for st, inb in enclosing_ifs(ac, n)]
-        ctx.check('R08.4', eg == [('has_edges', True)] and len(extra) == 1, "the edge dimension is row-selected exactly when the mask carries an edge table", ac,
+        from .common import facts as _facts
+        mask_name = ac.params[1]
+        EDGE = f"'new_edge_index' in {mask_name}.data_vars"
+        eg = sorted(_facts(ctx, ac, extra[0])) if extra else []
+        ctx.check('R08.4', eg in ([(EDGE, True)], [(EDGE, True), ('has_edges', True)]) and len(extra) == 1, "the edge dimension is row-selected exactly when the mask carries an edge table (and under no further condition)", ac,
                   extra[0] if extra else dm[0], construct=f"edge entry guard {eg}")
         all_loops = [n for n in walk_no_nested(ac.node) if isinstance(n, ast.For)]
         loops = [n for n in all_loops if not any(n is not o and any(x is n for x in ast.walk(o)) for o in all_loops)]
